@@ -201,7 +201,7 @@ func genFirstSubscribe(t *rapid.T) C19Scenario {
 	}
 	if len(c19Sites) > 0 {
 		// instrumented build: hold every subscriber for a moment between the Load that finds no subscriber map and the Store of its own map
-		s.Plan = []PlanAction{{Site: "hydra:SubscribeToSwampEvents:5:Store", Hit: 0, Kind: "sleep", SleepUs: rapid.SampledFrom([]int{300, 1500}).Draw(t, "us")}}
+		s.Plan = []PlanAction{{Site: "hydra:SubscribeToSwampEvents:Store:a25ce7", Hit: 0, Kind: "sleep", SleepUs: rapid.SampledFrom([]int{300, 1500}).Draw(t, "us")}}
 	}
 	return s
 }
@@ -227,7 +227,7 @@ func genDeleteRace(t *rapid.T) C19Scenario {
 	}
 	s.Subs = []C19Sub{{Gate: true, CloseAfter: -1}}
 	if len(c19Sites) > 0 {
-		s.Plan = []PlanAction{{Site: "swamp:sendDeletedEventToClient:1:atomic.LoadInt32", Hit: 0, Kind: "sleep", SleepUs: rapid.SampledFrom([]int{50, 300, 1000}).Draw(t, "us")}}
+		s.Plan = []PlanAction{{Site: "swamp:sendDeletedEventToClient:atomic.LoadInt32:9cc62d", Hit: 0, Kind: "sleep", SleepUs: rapid.SampledFrom([]int{50, 300, 1000}).Draw(t, "us")}}
 	}
 	return s
 }
